@@ -93,29 +93,42 @@ theorem ofNat_toNat (n : Nat) (h : n < 256) : (UInt8.ofNat n).toNat = n := by
 
 /-! ### domain names -/
 
-/-- A label inside the model's domain and acceptable to the `idna` codec in both directions: 1..63
-octets, ASCII, no ACE prefix, no dot. -/
+/-- A label inside the model's domain that parser and composer accept: 1..63 octets, ASCII, no ACE
+prefix, no dot. -/
 def LabelOk (l : Bytes) : Prop :=
   1 ≤ l.length ∧ l.length ≤ 63 ∧ labelModelled l = true ∧ ∀ x ∈ l, x.toNat ≠ 0x2e
 
-theorem idnaPieces_nodot (l : Bytes) (cur : Nat) (h : ∀ x ∈ l, x.toNat ≠ 0x2e) :
-    idnaPieces cur l = decide (cur + l.length < 64) := by
-  induction l generalizing cur with
-  | nil => simp [idnaPieces]
-  | cons x xs ih =>
-    have hx : (x.toNat == 0x2e) = false := by simpa using h x (by simp)
-    simp only [idnaPieces, hx, List.length_cons]
-    rw [ih (cur + 1) (fun y hy => h y (List.mem_cons_of_mem _ hy))]
-    have : cur + 1 + xs.length = cur + (xs.length + 1) := by omega
-    rw [this]
-    simp
+/-- labels the library reproduces, in a name of at most 255 octets (RFC 1035 §2.3.4) -/
+def NameOk (labels : List Bytes) : Prop :=
+  (∀ l ∈ labels, LabelOk l) ∧ (Spec.Dns.encodeName labels).length ≤ 255
+
+theorem hasDot_eq_false_iff (l : Bytes) : hasDot l = false ↔ ∀ x ∈ l, x.toNat ≠ 0x2e := by
+  simp [hasDot, List.any_eq_false]
+
+theorem labelRefused_eq_false_iff (l : Bytes) :
+    labelRefused l = false ↔ (∀ x ∈ l, x.toNat ≠ 0x2e) ∧ l.length ≤ 63 := by
+  simp only [labelRefused, Bool.or_eq_false_iff, hasDot_eq_false_iff, maxLabelSize]
+  constructor
+  · intro h; exact ⟨h.1, Nat.le_of_not_lt (of_decide_eq_false h.2)⟩
+  · intro h; exact ⟨h.1, decide_eq_false (Nat.not_lt.mpr h.2)⟩
+
+theorem labelRefused_of_ok {l : Bytes} (h : LabelOk l) : labelRefused l = false :=
+  (labelRefused_eq_false_iff l).mpr ⟨h.2.2.2, h.2.1⟩
+
+theorem labelOk_of_accepted {l : Bytes} (hne : l.isEmpty = false) (hm : labelModelled l = true)
+    (hr : labelRefused l = false) : LabelOk l := by
+  obtain ⟨h1, h2⟩ := (labelRefused_eq_false_iff l).mp hr
+  refine ⟨?_, h2, hm, h1⟩
+  cases l with
+  | nil => simp at hne
+  | cons x xs => simp
 
 theorem composeLabel_ok {l : Bytes} (h : LabelOk l) : composeLabel l = .ok (Spec.Dns.encodeLabel l) := by
+  have hr := labelRefused_of_ok h
   obtain ⟨h1, h2, h3, h4⟩ := h
   have hne : l.isEmpty = false := by cases l <;> simp_all
-  have hp : idnaPieces 0 l = true := by rw [idnaPieces_nodot l 0 h4]; simp; omega
   unfold composeLabel
-  simp only [hne, h3, hp, Bool.not_true, Bool.false_eq_true, if_false]
+  simp only [hne, h3, hr, Bool.not_true, Bool.false_eq_true, if_false]
   rw [composeBytes_ok (by rfl) l (by omega), encNat_network_spec]
   rfl
 
@@ -127,17 +140,91 @@ theorem composeItems_labels {labels : List Bytes} (h : ∀ l ∈ labels, LabelOk
     simp only [composeItems, composeLabel_ok (h l (by simp)), ih (fun x hx => h x (List.mem_cons_of_mem _ hx)),
       bind, Except.bind, pure, Except.pure, List.flatMap_cons]
 
-theorem composeName_ok {labels : List Bytes} (h : ∀ l ∈ labels, LabelOk l) :
+theorem composeName_ok {labels : List Bytes} (h : NameOk labels) :
     composeName labels = .ok (Spec.Dns.encodeName labels) := by
   unfold composeName
-  rw [composeItems_labels h]
+  rw [composeItems_labels h.1]
+  have hz : composeNum .network 1 0 = .ok [0] := rfl
+  simp only [hz, bind, Except.bind]
+  have hlen : ¬ (maxNameSize < (labels.flatMap Spec.Dns.encodeLabel ++ [0]).length) := by
+    have := h.2
+    simp only [Spec.Dns.encodeName, maxNameSize] at this ⊢
+    omega
+  rw [if_neg hlen]
   rfl
 
-theorem parseLabel_encode {l : Bytes} (hm : labelModelled l = true) (hl : l.length < 256) (s : Bytes) :
+/-- what `composeName` accepts: nothing above the limits (the converse of `composeName_ok` inside the
+model's domain) -/
+theorem composeLabel_ok_inv {l b : Bytes} (h : composeLabel l = .ok b) :
+    b = Spec.Dns.encodeLabel l ∧ l.length ≤ 63 := by
+  unfold composeLabel at h
+  split at h
+  · next he =>
+    have : l = [] := by cases l <;> simp_all
+    subst this
+    have : composeBytes .network 1 [] = .ok [0] := rfl
+    rw [this] at h
+    cases h
+    exact ⟨by decide, by simp⟩
+  · split at h
+    · simp [unmodelled] at h
+    · split at h
+      · simp at h
+      · next hr =>
+        have h63 := ((labelRefused_eq_false_iff l).mp (by simpa using hr)).2
+        rw [composeBytes_ok (by rfl) l (by omega), encNat_network_spec] at h
+        cases h
+        exact ⟨rfl, h63⟩
+
+theorem composeItems_labels_inv : ∀ {labels : List Bytes} {b : Bytes}, composeItems composeLabel labels = .ok b →
+    b = labels.flatMap Spec.Dns.encodeLabel ∧ ∀ l ∈ labels, l.length ≤ 63 := by
+  intro labels
+  induction labels with
+  | nil => intro b h; cases h; exact ⟨rfl, by simp⟩
+  | cons l ls ih =>
+    intro b h
+    simp only [composeItems, bind, Except.bind] at h
+    cases h1 : composeLabel l with
+    | error e => simp [h1] at h
+    | ok a =>
+      obtain ⟨ha, hl⟩ := composeLabel_ok_inv h1
+      simp only [h1] at h
+      cases h2 : composeItems composeLabel ls with
+      | error e => simp [h2] at h
+      | ok r =>
+        obtain ⟨hr, hls⟩ := ih h2
+        simp only [h2, pure, Except.pure, Except.ok.injEq] at h
+        subst h; subst ha; subst hr
+        refine ⟨by simp, ?_⟩
+        intro x hx
+        simp only [List.mem_cons] at hx
+        rcases hx with rfl | hx
+        · exact hl
+        · exact hls x hx
+
+theorem composeName_ok_inv {labels : List Bytes} {b : Bytes} (h : composeName labels = .ok b) :
+    b = Spec.Dns.encodeName labels ∧ b.length ≤ 255 ∧ ∀ l ∈ labels, l.length ≤ 63 := by
+  unfold composeName at h
+  cases h1 : composeItems composeLabel labels with
+  | error e => simp [h1, bind, Except.bind] at h
+  | ok body =>
+    obtain ⟨hb, hl⟩ := composeItems_labels_inv h1
+    have hz : composeNum .network 1 0 = .ok [0] := rfl
+    simp only [h1, hz, bind, Except.bind] at h
+    split at h
+    · simp at h
+    · next hlen =>
+      simp only [pure, Except.pure, Except.ok.injEq] at h
+      subst h; subst hb
+      simp only [maxNameSize] at hlen
+      exact ⟨rfl, by omega, hl⟩
+
+theorem parseLabel_encode {l : Bytes} (hm : labelModelled l = true) (hr : labelRefused l = false)
+    (hl : l.length < 256) (s : Bytes) :
     parseLabel (Spec.Dns.encodeLabel l ++ s) = .ok (l, 1 + l.length) := by
   unfold parseLabel Spec.Dns.encodeLabel
   rw [← encNat_network_spec, parseBytes_append (by rfl) l s (by omega)]
-  simp [bind, Except.bind, hm, pure, Except.pure]
+  simp [bind, Except.bind, hm, hr, pure, Except.pure]
 
 theorem parseLabels_encode (labels : List Bytes) (h : ∀ l ∈ labels, LabelOk l) (s : Bytes) :
     ∀ fuel, labels.length < fuel →
@@ -148,7 +235,7 @@ theorem parseLabels_encode (labels : List Bytes) (h : ∀ l ∈ labels, LabelOk 
     cases fuel with
     | zero => omega
     | succ f =>
-      have := parseLabel_encode (l := []) (by rfl) (by simp) s
+      have := parseLabel_encode (l := []) (by rfl) (by rfl) (by simp) s
       simp only [Spec.Dns.encodeLabel, List.length_nil, List.append_nil] at this
       have h0 : Spec.toBytesBE 1 0 = [0] := by decide
       rw [h0] at this
@@ -160,6 +247,7 @@ theorem parseLabels_encode (labels : List Bytes) (h : ∀ l ∈ labels, LabelOk 
     cases fuel with
     | zero => omega
     | succ f =>
+      have hr := labelRefused_of_ok (h l (by simp))
       obtain ⟨h1, h2, h3, h4⟩ := h l (by simp)
       have hne : l.isEmpty = false := by cases l <;> simp_all
       have hsplit : Spec.Dns.encodeName (l :: ls) ++ s = Spec.Dns.encodeLabel l ++ (Spec.Dns.encodeName ls ++ s) := by
@@ -170,34 +258,159 @@ theorem parseLabels_encode (labels : List Bytes) (h : ∀ l ∈ labels, LabelOk 
           = Spec.Dns.encodeName ls ++ s := by
         rw [← hlen, List.drop_left]
       simp only [parseLabels]
-      rw [hsplit, parseLabel_encode h3 (by omega)]
+      rw [hsplit, parseLabel_encode h3 hr (by omega)]
       simp only [bind, Except.bind, hne, Bool.false_eq_true, if_false]
       rw [hdrop, ih (fun x hx => h x (List.mem_cons_of_mem _ hx)) f (by simp only [List.length_cons] at hf; omega)]
       simp only [pure, Except.pure, Spec.Dns.encodeName, List.flatMap_cons, List.length_append, hlen]
       rw [Nat.add_assoc (1 + l.length)]
 
-theorem parseName_encode {labels : List Bytes} (h : ∀ l ∈ labels, LabelOk l) (s : Bytes) :
+theorem parseName_encode {labels : List Bytes} (h : NameOk labels) (s : Bytes) :
     parseName (Spec.Dns.encodeName labels ++ s) = .ok (labels, (Spec.Dns.encodeName labels).length) := by
   unfold parseName
-  apply parseLabels_encode labels h s
-  have : labels.length + 1 ≤ (Spec.Dns.encodeName labels).length := by
-    unfold Spec.Dns.encodeName
-    rw [List.length_append]
-    have : labels.length ≤ (labels.flatMap Spec.Dns.encodeLabel).length := by
-      induction labels with
-      | nil => simp
-      | cons l ls ih =>
-        simp only [List.flatMap_cons, List.length_append, List.length_cons, Spec.Dns.encodeLabel, toBytesBE_length]
-        have := ih (fun x hx => h x (List.mem_cons_of_mem _ hx))
-        omega
-    simp only [List.length_cons, List.length_nil]
+  have hfuel : labels.length < (Spec.Dns.encodeName labels ++ s).length + 1 := by
+    have : labels.length + 1 ≤ (Spec.Dns.encodeName labels).length := by
+      unfold Spec.Dns.encodeName
+      rw [List.length_append]
+      have : labels.length ≤ (labels.flatMap Spec.Dns.encodeLabel).length := by
+        clear h
+        induction labels with
+        | nil => simp
+        | cons l ls ih =>
+          simp only [List.flatMap_cons, List.length_append, List.length_cons, Spec.Dns.encodeLabel, toBytesBE_length]
+          omega
+      simp only [List.length_cons, List.length_nil]
+      omega
+    simp only [List.length_append]
     omega
-  simp only [List.length_append]
-  omega
+  rw [parseLabels_encode labels h.1 s _ hfuel]
+  have hlen : ¬ (maxNameSize < (Spec.Dns.encodeName labels).length) := by
+    have := h.2
+    simp only [maxNameSize]
+    omega
+  simp only [bind, Except.bind, hlen, if_false, pure, Except.pure]
 
-theorem name_roundTrip : RoundTrip nameCodec (fun labels => ∀ l ∈ labels, LabelOk l) := by
+theorem name_roundTrip : RoundTrip nameCodec NameOk := by
   intro labels h
   exact ⟨_, composeName_ok h, fun s => parseName_encode h s⟩
+
+/-! ### what the name parser accepts -/
+
+/-- `parse_bytes` re-encodes: the octets consumed are the length prefix of the value, then the value -/
+theorem parseBytes_ok_take {k : Nat} {rest v : Bytes} {n : Nat} (h : parseBytes .network k rest = .ok (v, n)) :
+    n = k + v.length ∧ n ≤ rest.length ∧ rest.take n = encNat .network k v.length ++ v ∧ v.length < 256 ^ k := by
+  unfold parseBytes at h
+  cases hp : parseNum .network k rest with
+  | error e => simp [hp, bind, Except.bind] at h
+  | ok r =>
+    obtain ⟨len, n1⟩ := r
+    obtain ⟨hn1, hk, hlen, henc, _⟩ := parseNum_ok_inv hp
+    simp only [hp, bind, Except.bind] at h
+    cases hr : parseRaw (len : Int) (rest.drop n1) with
+    | error e => simp [hr] at h
+    | ok r2 =>
+      obtain ⟨body, m⟩ := r2
+      obtain ⟨_, hm, hml, hbody⟩ := parseRaw_ok_inv hr
+      simp only [hr, pure, Except.pure, Except.ok.injEq, Prod.mk.injEq] at h
+      obtain ⟨hv, hn⟩ := h
+      subst hv
+      simp only [Int.toNat_natCast] at hm
+      subst hm; subst hn1
+      simp only [List.length_drop] at hml
+      have hbl : body.length = m := by rw [hbody, List.length_take, List.length_drop]; omega
+      refine ⟨by omega, by omega, ?_, by omega⟩
+      rw [← hn, List.take_add, ← henc, hbl, ← hbody]
+
+theorem parseLabel_ok_inv {bs l : Bytes} {n : Nat} (h : parseLabel bs = .ok (l, n)) :
+    n = 1 + l.length ∧ n ≤ bs.length ∧ bs.take n = Spec.Dns.encodeLabel l ∧ labelModelled l = true ∧
+      labelRefused l = false := by
+  unfold parseLabel at h
+  cases h1 : parseBytes .network 1 bs with
+  | error e => simp [h1, bind, Except.bind] at h
+  | ok r =>
+    obtain ⟨l', n'⟩ := r
+    simp only [h1, bind, Except.bind] at h
+    split at h
+    · simp at h
+    · next hm =>
+      split at h
+      · simp at h
+      · next hr =>
+        simp only [pure, Except.pure, Except.ok.injEq, Prod.mk.injEq] at h
+        obtain ⟨hl, hn⟩ := h
+        subst hl; subst hn
+        obtain ⟨a, b, c, _⟩ := parseBytes_ok_take h1
+        refine ⟨a, b, ?_, by simpa using hm, by simpa using hr⟩
+        rw [c, encNat_network_spec]
+        rfl
+
+theorem encodeName_cons' (l : Bytes) (ls : List Bytes) :
+    Spec.Dns.encodeName (l :: ls) = Spec.Dns.encodeLabel l ++ Spec.Dns.encodeName ls := by
+  simp [Spec.Dns.encodeName, List.append_assoc]
+
+/-- whatever the label loop accepts is the RFC 1035 encoding of labels the library reproduces -/
+theorem parseLabels_ok_inv : ∀ (fuel : Nat) (bs : Bytes) (ls : List Bytes) (n : Nat),
+    parseLabels fuel bs = .ok (ls, n) →
+      n ≤ bs.length ∧ bs.take n = Spec.Dns.encodeName ls ∧ ∀ l ∈ ls, LabelOk l := by
+  intro fuel
+  induction fuel with
+  | zero => intro bs ls n h; simp [parseLabels] at h
+  | succ f ih =>
+    intro bs ls n h
+    simp only [parseLabels] at h
+    cases h1 : parseLabel bs with
+    | error e => simp [h1, bind, Except.bind] at h
+    | ok r =>
+      obtain ⟨l, n1⟩ := r
+      obtain ⟨hn1, hle, htake, hm, hr⟩ := parseLabel_ok_inv h1
+      simp only [h1, bind, Except.bind] at h
+      split at h
+      · next he =>
+        simp only [pure, Except.pure, Except.ok.injEq, Prod.mk.injEq] at h
+        obtain ⟨hls, hn⟩ := h
+        subst hls; subst hn
+        have : l = [] := by cases l <;> simp_all
+        subst this
+        exact ⟨hle, by rw [htake]; decide, by simp⟩
+      · next he =>
+        cases h2 : parseLabels f (bs.drop n1) with
+        | error e => simp [h2] at h
+        | ok r2 =>
+          obtain ⟨ls', m⟩ := r2
+          obtain ⟨hm1, hm2, hm3⟩ := ih _ _ _ h2
+          simp only [h2, pure, Except.pure, Except.ok.injEq, Prod.mk.injEq] at h
+          obtain ⟨hls, hn⟩ := h
+          subst hls; subst hn
+          simp only [List.length_drop] at hm1
+          refine ⟨by omega, ?_, ?_⟩
+          · rw [List.take_add, htake, hm2, encodeName_cons']
+          · intro x hx
+            simp only [List.mem_cons] at hx
+            rcases hx with rfl | hx
+            · exact labelOk_of_accepted (by simpa using he) hm hr
+            · exact hm3 x hx
+
+/-- RFC 1035 §2.3.4 is enforced: whatever `DnsNameUncompressed._parse` accepts is the encoding —
+255 octets or less — of labels of 1..63 octets each (inside the model's domain: ASCII, no ACE
+prefix), none of which holds a dot -/
+theorem parseName_ok_inv {bs : Bytes} {ls : List Bytes} {n : Nat} (h : parseName bs = .ok (ls, n)) :
+    n ≤ bs.length ∧ n ≤ 255 ∧ bs.take n = Spec.Dns.encodeName ls ∧ NameOk ls := by
+  unfold parseName at h
+  cases h1 : parseLabels (bs.length + 1) bs with
+  | error e => simp [h1, bind, Except.bind] at h
+  | ok r =>
+    obtain ⟨ls', n'⟩ := r
+    simp only [h1, bind, Except.bind] at h
+    split at h
+    · simp at h
+    · next hlen =>
+      simp only [pure, Except.pure, Except.ok.injEq, Prod.mk.injEq] at h
+      obtain ⟨hls, hn⟩ := h
+      subst hls; subst hn
+      obtain ⟨a, b, c⟩ := parseLabels_ok_inv _ _ _ _ h1
+      simp only [maxNameSize] at hlen
+      refine ⟨a, by omega, b, c, ?_⟩
+      rw [← b, List.length_take]
+      omega
 
 /-! ### round trip of codecs that read everything that is left (`parse_raw(unparsed_length)`) -/
 
@@ -261,7 +474,7 @@ theorem composeNum_spec {k v : Nat} (hk : validSize k = true) (hv : v < 256 ^ k)
 
 /-! ### MX -/
 
-def MxOk (m : Mx) : Prop := m.priority < 256 ^ 2 ∧ ∀ l ∈ m.exchange, LabelOk l
+def MxOk (m : Mx) : Prop := m.priority < 256 ^ 2 ∧ NameOk m.exchange
 
 def Mx.toSpec (m : Mx) : Spec.Dns.Mx := ⟨m.priority, m.exchange⟩
 
@@ -375,17 +588,17 @@ theorem typeCovered_roundTrip : RoundTrip typeCoveredCodec TypeCoveredOk := by
 def RrsigComposable (r : Rrsig) : Prop :=
   TypeCoveredOk r.typeCovered ∧ r.algorithm < Gen.DnsSecAlgorithm.codes.length ∧ r.labels < 256 ^ 1 ∧
   r.originalTtl < 256 ^ 4 ∧ r.expiration < 256 ^ 4 ∧ r.inception < 256 ^ 4 ∧ r.keyTag < 256 ^ 2 ∧
-  (∀ l ∈ r.signersName, LabelOk l)
+  NameOk r.signersName
 
-/-- … and the RDATA is not shorter than the class's `HEADER_SIZE` -/
-def RrsigOk (r : Rrsig) : Prop :=
-  RrsigComposable r ∧ rrsigHeaderSize ≤ 18 + (Spec.Dns.encodeName r.signersName).length + r.signature.length
+/-- (the RDATA of a composable value is never shorter than the class's `HEADER_SIZE`, the 18 octets of
+the fixed part: no further condition) -/
+def RrsigOk (r : Rrsig) : Prop := RrsigComposable r
 
 def Rrsig.toSpec (r : Rrsig) : Spec.Dns.Rrsig :=
   ⟨typeCoveredCode r.typeCovered, Gen.DnsSecAlgorithm.codes.getD r.algorithm 0, r.labels, r.originalTtl, r.expiration,
     r.inception, r.keyTag, r.signersName, r.signature⟩
 
-theorem RrsigOk.composable {r : Rrsig} (h : RrsigOk r) : RrsigComposable r := h.1
+theorem RrsigOk.composable {r : Rrsig} (h : RrsigOk r) : RrsigComposable r := h
 
 theorem composeRrsig_eq_spec {r : Rrsig} (h : RrsigComposable r) :
     composeRrsig r = .ok (Spec.Dns.encodeRrsig r.toSpec) := by
@@ -400,7 +613,7 @@ theorem rrsig_roundTripExact : RoundTripExact rrsigCodec RrsigOk := by
   apply minSize_roundTripExact
   · apply mapE_roundTripExact (w := fun x => TypeCoveredOk x.1 ∧ x.2.1 < Gen.DnsSecAlgorithm.codes.length ∧
         x.2.2.1 < 256 ^ 1 ∧ x.2.2.2.1 < 256 ^ 4 ∧ x.2.2.2.2.1 < 256 ^ 4 ∧ x.2.2.2.2.2.1 < 256 ^ 4 ∧
-        x.2.2.2.2.2.2.1 < 256 ^ 2 ∧ (∀ l ∈ x.2.2.2.2.2.2.2.1, LabelOk l) ∧ True)
+        x.2.2.2.2.2.2.1 < 256 ^ 2 ∧ NameOk x.2.2.2.2.2.2.2.1 ∧ True)
       (seq_roundTripExact typeCovered_roundTrip
         (seq_roundTripExact (codedStrict_roundTrip alg_tableOk)
           (seq_roundTripExact (num_roundTrip .network (k := 1) rfl)
@@ -410,15 +623,14 @@ theorem rrsig_roundTripExact : RoundTripExact rrsigCodec RrsigOk := by
                   (seq_roundTripExact (num_roundTrip .network (k := 2) rfl)
                     (seq_roundTripExact name_roundTrip rawRest_roundTripExact))))))))
     intro r hr
-    obtain ⟨⟨h1, h2, h3, h4, h5, h6, h7, h8⟩, _⟩ := hr
+    obtain ⟨h1, h2, h3, h4, h5, h6, h7, h8⟩ := hr
     exact ⟨⟨h1, h2, h3, h4, h5, h6, h7, h8, trivial⟩, rfl⟩
   · intro r b hr hb
     have := composeRrsig_eq_spec hr.composable
     simp only [composeRrsig, rrsigCodec, minSize] at this
     rw [this] at hb
     cases hb
-    have hlen := hr.2
-    simp only [Spec.Dns.encodeRrsig, toBytesBE_length, List.length_append, Rrsig.toSpec]
+    simp only [Spec.Dns.encodeRrsig, toBytesBE_length, List.length_append, Rrsig.toSpec, rrsigHeaderSize]
     omega
 
 /-! ### no exception outside the documented ones (up to the model's own boundary) -/
@@ -516,22 +728,11 @@ theorem parseLabel_crash {bs : Bytes} {k : String} (h : parseLabel bs = .error (
     obtain ⟨l, n⟩ := r
     simp only [h1, bind, Except.bind] at h
     split at h
-    · simp [pure, Except.pure] at h
     · simp only [unmodelled, Except.error.injEq, PErr.crash.injEq] at h
       exact h.symm
-
-theorem parseLabel_ok_inv {bs l : Bytes} {n : Nat} (h : parseLabel bs = .ok (l, n)) : 1 ≤ n ∧ n ≤ bs.length := by
-  unfold parseLabel at h
-  cases h1 : parseBytes .network 1 bs with
-  | error e => simp [h1, bind, Except.bind] at h
-  | ok r =>
-    obtain ⟨l', n'⟩ := r
-    simp only [h1, bind, Except.bind] at h
-    split at h
-    · simp [pure, Except.pure] at h
-      obtain ⟨_, _, hn, hle, _⟩ := parseBytes_ok_inv h1
-      omega
-    · simp at h
+    · split at h
+      · simp at h
+      · simp [pure, Except.pure] at h
 
 theorem parseLabels_crash : ∀ (fuel : Nat) (bs : Bytes) (k : String), bs.length < fuel →
     parseLabels fuel bs = .error (.crash k) → k = "UNMODELLED" := by
@@ -548,7 +749,7 @@ theorem parseLabels_crash : ∀ (fuel : Nat) (bs : Bytes) (k : String), bs.lengt
       exact parseLabel_crash h1
     | ok r =>
       obtain ⟨l, n⟩ := r
-      obtain ⟨hn1, hn2⟩ := parseLabel_ok_inv h1
+      obtain ⟨hn1, hn2, _⟩ := parseLabel_ok_inv h1
       simp only [h1, bind, Except.bind] at h
       split at h
       · simp [pure, Except.pure] at h
@@ -559,8 +760,20 @@ theorem parseLabels_crash : ∀ (fuel : Nat) (bs : Bytes) (k : String), bs.lengt
           exact ih (bs.drop n) k (by simp only [List.length_drop]; omega) h2
         | ok r2 => simp [h2, pure, Except.pure] at h
 
-theorem name_crashOnly : CrashOnly (· = "UNMODELLED") nameCodec :=
-  fun bs k h => parseLabels_crash (bs.length + 1) bs k (Nat.lt_succ_self _) h
+theorem name_crashOnly : CrashOnly (· = "UNMODELLED") nameCodec := by
+  intro bs k h
+  simp only [nameCodec, parseName] at h
+  cases h1 : parseLabels (bs.length + 1) bs with
+  | error e =>
+    simp only [h1, bind, Except.bind] at h
+    cases h
+    exact parseLabels_crash (bs.length + 1) bs k (Nat.lt_succ_self _) h1
+  | ok r =>
+    obtain ⟨ls, n⟩ := r
+    simp only [h1, bind, Except.bind] at h
+    split at h
+    · simp at h
+    · simp [pure, Except.pure] at h
 
 /-- `DnsRecordRrsig._parse` raises nothing but the four documented parse errors -/
 theorem rrsig_crashOnly : CrashOnly (· = "UNMODELLED") rrsigCodec := by
@@ -798,16 +1011,65 @@ theorem parseNum_spec {k v : Nat} (hk : validSize k = true) (hv : v < 256 ^ k) (
   rw [← encNat_network_spec]
   exact parseNum_enc hk hv s
 
+/-! ### errors that are not exceptions foreign to the parser interface -/
+
+/-- an error is benign when, if it is a crash at all, it is the model's own boundary marker -/
+def Benign (e : PErr) : Prop := ∀ k, e = .crash k → k = "UNMODELLED"
+
+theorem benign_notEnough (n : Int) : Benign (.notEnough n) := fun _ h => by cases h
+theorem benign_tooMuch (n : Int) : Benign (.tooMuch n) := fun _ h => by cases h
+theorem benign_invalidValue : Benign .invalidValue := fun _ h => by cases h
+theorem benign_unmodelled : Benign unmodelled := fun k h => by
+  simp only [unmodelled, PErr.crash.injEq] at h
+  exact h.symm
+
+theorem parseNum_err_benign {k : Nat} (hk : validSize k = true) {rest : Bytes} {e : PErr}
+    (h : parseNum .network k rest = .error e) : Benign e :=
+  fun c hc => absurd (hc ▸ h) (parseNum_no_crash hk rest c)
+
+theorem parseMpint_err {len : Nat} {rest : Bytes} {e : PErr} (h : parseMpint len rest = .error e) : Benign e := by
+  unfold parseMpint parseMpintCore at h
+  split at h
+  · simp only [bind, Except.bind, Except.error.injEq] at h
+    subst h
+    exact benign_notEnough _
+  · simp [bind, Except.bind, pure, Except.pure] at h
+
+theorem parseRaw_err {size : Int} {rest : Bytes} {e : PErr} (h : parseRaw size rest = .error e) : Benign e := by
+  unfold parseRaw at h
+  split at h
+  · cases h; exact benign_invalidValue
+  · split at h
+    · cases h; exact benign_notEnough _
+    · simp at h
+
+theorem parseMpint_ok_val {len : Nat} {rest : Bytes} {v : Int} {n : Nat} (h : parseMpint len rest = .ok (v, n)) :
+    v = (natOfBE (rest.take len) : Int) ∧ n = len ∧ len ≤ rest.length := by
+  obtain ⟨hn, hle, _⟩ := parseMpint_ok_inv h
+  have hl : (rest.take len).length = len := by rw [List.length_take]; omega
+  have := parseMpint_append (rest.take len) (rest.drop len)
+  rw [List.take_append_drop, hl, h] at this
+  simp only [Except.ok.injEq, Prod.mk.injEq] at this
+  exact ⟨this.1, hn, hle⟩
+
+theorem parseMpint_ok_lt {len : Nat} {rest : Bytes} {v : Int} {n : Nat} (h : parseMpint len rest = .ok (v, n)) :
+    v.toNat < 256 ^ len := by
+  obtain ⟨hv, _, hle⟩ := parseMpint_ok_val h
+  rw [hv, Int.toNat_natCast]
+  have := natOfBE_lt (rest.take len)
+  rwa [List.length_take, Nat.min_eq_left hle] at this
+
 /-! ### RSA keys (RFC 3110) -/
 
-def RsaOk (e m : Nat) : Prop :=
-  1 ≤ e ∧ e < 256 ^ 65535 ∧ 1 ≤ m ∧ (∀ k, m ≠ 256 ^ k) ∧ floatRisk m = false
+/-- an RSA key the library reproduces: exponent and modulus are not zero, the exponent length fits its
+two-octet field -/
+def RsaOk (e m : Nat) : Prop := 1 ≤ e ∧ e < 256 ^ 65535 ∧ 1 ≤ m
 
 theorem toBytesBE_one_zero : Spec.toBytesBE 1 0 = [0] := by decide
 
 theorem composeKeyRsa_eq_spec {e m : Nat} (h : RsaOk e m) :
     composeKeyRsa e m = .ok (Spec.Dns.encodeRsa e m) := by
-  obtain ⟨he1, he2, hm1, hmp, hmr⟩ := h
+  obtain ⟨he1, he2, hm1⟩ := h
   have hel1 : 1 ≤ byteLen e := by
     have : ¬ (byteLen e ≤ 0) := fun h0 => by
       have := (byteLen_le_iff e 0).mp h0
@@ -815,9 +1077,6 @@ theorem composeKeyRsa_eq_spec {e m : Nat} (h : RsaOk e m) :
       omega
     omega
   have hel2 : byteLen e ≤ 65535 := (byteLen_le_iff e 65535).mpr he2
-  have hm0 : ¬ (m = 0) := by omega
-  have hkb : keyBytesOfModulus m = .ok (byteLen m) := by
-    simp [keyBytesOfModulus, hm0, hmr, clog256_eq_byteLen hm1 hmp]
   have hhead : composeRsaExpLen (byteLen e) = .ok (Spec.Dns.rsaExponentLength (byteLen e)) := by
     unfold composeRsaExpLen Spec.Dns.rsaExponentLength
     by_cases hbig : byteLen e > 255
@@ -831,12 +1090,12 @@ theorem composeKeyRsa_eq_spec {e m : Nat} (h : RsaOk e m) :
       have h1 : byteLen e < 256 ^ 1 := by omega
       simp only [hbig, if_false, hyes, and_self, if_true, composeNum_spec (k := 1) rfl h1]
   unfold composeKeyRsa
-  simp only [hhead, composeMpint_nat (lt_pow_byteLen e), hkb, composeMpint_nat (lt_pow_byteLen m), bind, Except.bind,
+  simp only [hhead, composeMpint_nat (lt_pow_byteLen e), composeMpint_nat (lt_pow_byteLen m), bind, Except.bind,
     pure, Except.pure, toBytesBE_byteLen, Spec.Dns.encodeRsa, Spec.Dns.encodeRsaOctets, ← byteLen_eq_minLen]
 
-/-- the one-octet length form, with any exponent and modulus octets -/
+/-- the one-octet length form, with any exponent and modulus octets that are not all zero -/
 theorem parseKeyRsa_short {n : Nat} (h1 : 1 ≤ n) (h2 : n ≤ 255) (eb mb : Bytes) (hn : eb.length = n)
-    (hr : floatRisk (natOfBE mb) = false) :
+    (he : natOfBE eb ≠ 0) (hm : natOfBE mb ≠ 0) :
     parseKeyRsa (Spec.toBytesBE 1 n ++ (eb ++ mb)) = .ok (.rsa (natOfBE eb) (natOfBE mb), 1 + n + mb.length) := by
   have hz : (n == 0) = false := by simp; omega
   have hlenf : parseRsaExpLen (Spec.toBytesBE 1 n ++ (eb ++ mb)) = .ok (n, 1) := by
@@ -856,11 +1115,11 @@ theorem parseKeyRsa_short {n : Nat} (h1 : 1 ≤ n) (h2 : n ≤ 255) (eb mb : Byt
   have hp2 := parseMpint_append mb []
   rw [List.append_nil] at hp2
   rw [hd1, hp1]
-  simp only [hd2, hp2, Int.toNat_natCast, hr, Bool.false_eq_true, if_false]
+  simp only [hd2, hp2, Int.toNat_natCast, he, hm, if_false]
 
 /-- the three-octet length form (a zero octet, then a two-octet length), for ANY length -/
 theorem parseKeyRsa_long {n : Nat} (h : n < 256 ^ 2) (eb mb : Bytes) (hn : eb.length = n)
-    (hr : floatRisk (natOfBE mb) = false) :
+    (he : natOfBE eb ≠ 0) (hm : natOfBE mb ≠ 0) :
     parseKeyRsa ([0] ++ (Spec.toBytesBE 2 n ++ (eb ++ mb))) = .ok (.rsa (natOfBE eb) (natOfBE mb), 3 + n + mb.length) := by
   rw [← toBytesBE_one_zero]
   have hz : ((0 : Nat) == 0) = true := rfl
@@ -885,58 +1144,83 @@ theorem parseKeyRsa_long {n : Nat} (h : n < 256 ^ 2) (eb mb : Bytes) (hn : eb.le
   have hp2 := parseMpint_append mb []
   rw [List.append_nil] at hp2
   rw [hd3, hp1]
-  simp only [hd4, hp2, Int.toNat_natCast, hr, Bool.false_eq_true, if_false, pure, Except.pure]
+  simp only [hd4, hp2, Int.toNat_natCast, he, hm, if_false, pure, Except.pure]
 
-theorem parseKeyRsa_spec {e m : Nat} (he : e < 256 ^ 65535) (hr : floatRisk m = false) :
+theorem parseKeyRsa_spec {e m : Nat} (h : RsaOk e m) :
     parseKeyRsa (Spec.Dns.encodeRsa e m) = .ok (.rsa e m, (Spec.Dns.encodeRsa e m).length) := by
+  obtain ⟨he1, he, hm1⟩ := h
   have hlen : (Spec.minBytesBE e).length ≤ 65535 := (minBytesBE_length_le_iff e 65535).mpr he
-  have hr' : floatRisk (natOfBE (Spec.minBytesBE m)) = false := by rw [natOfBE_minBytesBE]; exact hr
+  have he' : natOfBE (Spec.minBytesBE e) ≠ 0 := by rw [natOfBE_minBytesBE]; omega
+  have hm' : natOfBE (Spec.minBytesBE m) ≠ 0 := by rw [natOfBE_minBytesBE]; omega
   simp only [Spec.Dns.encodeRsa, Spec.Dns.encodeRsaOctets, Spec.Dns.rsaExponentLength]
   split
   · next hs =>
-    rw [List.append_assoc, parseKeyRsa_short hs.1 hs.2 _ _ rfl hr', natOfBE_minBytesBE, natOfBE_minBytesBE]
+    rw [List.append_assoc, parseKeyRsa_short hs.1 hs.2 _ _ rfl he' hm', natOfBE_minBytesBE, natOfBE_minBytesBE]
     simp only [List.length_append, toBytesBE_length]
     congr 2
     omega
-  · rw [List.append_assoc, List.append_assoc, parseKeyRsa_long (by omega) _ _ rfl hr', natOfBE_minBytesBE,
+  · rw [List.append_assoc, List.append_assoc, parseKeyRsa_long (by omega) _ _ rfl he' hm', natOfBE_minBytesBE,
       natOfBE_minBytesBE]
     simp only [List.length_append, toBytesBE_length, List.length_cons, List.length_nil]
     congr 2
     omega
 
-/-- the RSA key parser always reads its whole input: nothing after the exponent is dropped -/
-theorem parseKeyRsa_consumes_all {kb : Bytes} {k : Key} {n : Nat} (h : parseKeyRsa kb = .ok (k, n)) :
-    n = kb.length := by
+theorem parseRsaExpLen_ok_inv {kb : Bytes} {el n : Nat} (h : parseRsaExpLen kb = .ok (el, n)) :
+    n ≤ kb.length ∧ el ≤ 65535 := by
+  unfold parseRsaExpLen at h
+  cases h1 : parseNum .network 1 kb with
+  | error e => simp [h1, bind, Except.bind] at h
+  | ok r1 =>
+    obtain ⟨l1, n1⟩ := r1
+    obtain ⟨hn1, hk1, hl1, _⟩ := parseNum_ok_inv h1
+    simp only [h1, bind, Except.bind] at h
+    split at h
+    · cases h2 : parseNum .network 2 (kb.drop n1) with
+      | error e => simp [h2] at h
+      | ok r =>
+        obtain ⟨v, m⟩ := r
+        obtain ⟨hm, hk, hv, _⟩ := parseNum_ok_inv h2
+        simp [h2, pure, Except.pure] at h
+        simp at hk
+        omega
+    · simp [pure, Except.pure] at h
+      omega
+
+theorem parseRsaExpLen_err {kb : Bytes} {e : PErr} (h : parseRsaExpLen kb = .error e) : Benign e := by
+  unfold parseRsaExpLen at h
+  cases h1 : parseNum .network 1 kb with
+  | error e1 =>
+    simp only [h1, bind, Except.bind, Except.error.injEq] at h
+    subst h
+    exact parseNum_err_benign rfl h1
+  | ok r1 =>
+    obtain ⟨l1, n1⟩ := r1
+    simp only [h1, bind, Except.bind] at h
+    split at h
+    · cases h2 : parseNum .network 2 (kb.drop n1) with
+      | error e2 =>
+        simp only [h2, Except.error.injEq] at h
+        subst h
+        exact parseNum_err_benign rfl h2
+      | ok r => simp [h2, pure, Except.pure] at h
+    · simp [pure, Except.pure] at h
+
+/-- what the RSA key parser accepts: a key the library reproduces, read from ALL of the key field -/
+theorem parseKeyRsa_ok_inv {kb : Bytes} {k : Key} {n : Nat} (h : parseKeyRsa kb = .ok (k, n)) :
+    ∃ e m, k = .rsa e m ∧ RsaOk e m ∧ n = kb.length := by
   unfold parseKeyRsa at h
   cases hh : parseRsaExpLen kb with
   | error e => simp [hh, bind, Except.bind] at h
   | ok r2 =>
     obtain ⟨el, n2⟩ := r2
-    have hn2 : n2 ≤ kb.length := by
-      unfold parseRsaExpLen at hh
-      cases h1 : parseNum .network 1 kb with
-      | error e => simp [h1, bind, Except.bind] at hh
-      | ok r1 =>
-        obtain ⟨l1, n1⟩ := r1
-        obtain ⟨hn1, hk1, _⟩ := parseNum_ok_inv h1
-        simp only [h1, bind, Except.bind] at hh
-        split at hh
-        · cases h2 : parseNum .network 2 (kb.drop n1) with
-          | error e => simp [h2] at hh
-          | ok r =>
-            obtain ⟨v, n⟩ := r
-            obtain ⟨hn, hk, _⟩ := parseNum_ok_inv h2
-            simp [h2, pure, Except.pure] at hh
-            simp at hk
-            omega
-        · simp [pure, Except.pure] at hh
-          omega
+    obtain ⟨hn2, hel⟩ := parseRsaExpLen_ok_inv hh
     simp only [hh, bind, Except.bind] at h
     cases h3 : parseMpint el (kb.drop n2) with
     | error e => simp [h3] at h
     | ok r3 =>
       obtain ⟨ev, n3⟩ := r3
       obtain ⟨hn3, hl3, _⟩ := parseMpint_ok_inv h3
+      have helt := parseMpint_ok_lt h3
       simp only [h3, List.length_drop] at h
       cases h4 : parseMpint (kb.length - (n2 + n3)) (kb.drop (n2 + n3)) with
       | error e => simp [h4] at h
@@ -946,15 +1230,60 @@ theorem parseKeyRsa_consumes_all {kb : Bytes} {k : Key} {n : Nat} (h : parseKeyR
         simp only [h4] at h
         split at h
         · simp at h
-        · simp [pure, Except.pure] at h
-          simp at hl3 hn4
-          omega
+        · next he0 =>
+          split at h
+          · simp at h
+          · next hm0 =>
+            simp only [pure, Except.pure, Except.ok.injEq, Prod.mk.injEq] at h
+            obtain ⟨hk, hn⟩ := h
+            refine ⟨ev.toNat, mv.toNat, hk.symm, ⟨by omega, ?_, by omega⟩, ?_⟩
+            · exact Nat.lt_of_lt_of_le helt (Nat.pow_le_pow_right (by decide) hel)
+            · simp only [List.length_drop] at hl3
+              omega
+
+/-- the RSA key parser always reads its whole input: nothing after the exponent is dropped -/
+theorem parseKeyRsa_consumes_all {kb : Bytes} {k : Key} {n : Nat} (h : parseKeyRsa kb = .ok (k, n)) :
+    n = kb.length := by
+  obtain ⟨_, _, _, _, hn⟩ := parseKeyRsa_ok_inv h
+  exact hn
+
+theorem parseKeyRsa_err {kb : Bytes} {e : PErr} (h : parseKeyRsa kb = .error e) : Benign e := by
+  unfold parseKeyRsa at h
+  cases hh : parseRsaExpLen kb with
+  | error e1 =>
+    simp only [hh, bind, Except.bind, Except.error.injEq] at h
+    subst h
+    exact parseRsaExpLen_err hh
+  | ok r2 =>
+    obtain ⟨el, n2⟩ := r2
+    simp only [hh, bind, Except.bind] at h
+    cases h3 : parseMpint el (kb.drop n2) with
+    | error e3 =>
+      simp only [h3, Except.error.injEq] at h
+      subst h
+      exact parseMpint_err h3
+    | ok r3 =>
+      obtain ⟨ev, n3⟩ := r3
+      simp only [h3] at h
+      cases h4 : parseMpint (kb.drop (n2 + n3)).length (kb.drop (n2 + n3)) with
+      | error e4 =>
+        simp only [h4, Except.error.injEq] at h
+        subst h
+        exact parseMpint_err h4
+      | ok r4 =>
+        obtain ⟨mv, n4⟩ := r4
+        simp only [h4] at h
+        split at h
+        · cases h; exact benign_invalidValue
+        · split at h
+          · cases h; exact benign_invalidValue
+          · simp [pure, Except.pure] at h
 
 /-! ### elliptic-curve keys (RFC 6605) -/
 
 /-- coordinates that fit `n` octets and from which the library can build its key object
 (`ECPointBitString.from_coords` raises for a zero coordinate and when the wider coordinate is a
-power of 256; see `ecWidth_of_not_pow` for a sufficient condition) -/
+power of 256 — both are `InvalidValue` on parse; see `ecWidth_of_not_pow` for a sufficient condition) -/
 def EcOk (n x y : Nat) : Prop := x < 256 ^ n ∧ y < 256 ^ n ∧ ∃ w, ecWidth x y = .ok w
 
 /-- non-zero coordinates that are not powers of 256 (and away from the float zone) are accepted,
@@ -972,6 +1301,21 @@ theorem ecWidth_of_not_pow {x y : Nat} (hx1 : 1 ≤ x) (hy1 : 1 ≤ y) (hrx : fl
   have hnx : ¬ (256 ^ max (clog256 x) (clog256 y) ≤ x) := by omega
   have hny : ¬ (256 ^ max (clog256 x) (clog256 y) ≤ y) := by omega
   simp [ecWidth, hx0, hy0, hrx, hry, hnx, hny]
+
+theorem ecWidth_err {x y : Nat} {e : PErr} (h : ecWidth x y = .error e) : Benign e := by
+  unfold ecWidth at h
+  split at h
+  · cases h; exact benign_invalidValue
+  · split at h
+    · cases h; exact benign_invalidValue
+    · split at h
+      · cases h; exact benign_unmodelled
+      · simp only at h
+        split at h
+        · cases h; exact benign_invalidValue
+        · split at h
+          · cases h; exact benign_invalidValue
+          · simp at h
 
 /-- every pair of coordinates that fit the curve's width composes to the fixed-width form -/
 theorem composeKeyEc_eq_spec {g x y : Nat} (hx : x < 256 ^ groupBytes g) (hy : y < 256 ^ groupBytes g) :
@@ -992,9 +1336,9 @@ theorem parseKeyEc_spec {g x y : Nat} (h : EcOk (groupBytes g) x y) (s : Bytes) 
   congr 2
   omega
 
-/-- what the key parsers of the fixed-size key types consume is the fixed size, whatever follows -/
-theorem parseKeyEc_consumed {g : Nat} {kb : Bytes} {k : Key} {n : Nat} (h : parseKeyEc g kb = .ok (k, n)) :
-    n = 2 * groupBytes g := by
+/-- what the EC key parser accepts: coordinates the library reproduces, in exactly the fixed size -/
+theorem parseKeyEc_ok_inv {g : Nat} {kb : Bytes} {k : Key} {n : Nat} (h : parseKeyEc g kb = .ok (k, n)) :
+    ∃ x y, k = .ec g x y ∧ EcOk (groupBytes g) x y ∧ n = 2 * groupBytes g := by
   unfold parseKeyEc at h
   cases h1 : parseMpint (groupBytes g) kb with
   | error e => simp [h1, bind, Except.bind] at h
@@ -1009,10 +1353,41 @@ theorem parseKeyEc_consumed {g : Nat} {kb : Bytes} {k : Key} {n : Nat} (h : pars
       cases h3 : ecWidth x.toNat y.toNat with
       | error e => simp [h3] at h
       | ok w =>
-        simp [h3, pure, Except.pure] at h
+        simp only [h3, pure, Except.pure, Except.ok.injEq, Prod.mk.injEq] at h
+        obtain ⟨hk, hn⟩ := h
         have := (parseMpint_ok_inv h1).1
         have := (parseMpint_ok_inv h2).1
-        omega
+        exact ⟨x.toNat, y.toNat, hk.symm, ⟨parseMpint_ok_lt h1, parseMpint_ok_lt h2, w, h3⟩, by omega⟩
+
+theorem parseKeyEc_consumed {g : Nat} {kb : Bytes} {k : Key} {n : Nat} (h : parseKeyEc g kb = .ok (k, n)) :
+    n = 2 * groupBytes g := by
+  obtain ⟨_, _, _, _, hn⟩ := parseKeyEc_ok_inv h
+  exact hn
+
+theorem parseKeyEc_err {g : Nat} {kb : Bytes} {e : PErr} (h : parseKeyEc g kb = .error e) : Benign e := by
+  unfold parseKeyEc at h
+  cases h1 : parseMpint (groupBytes g) kb with
+  | error e1 =>
+    simp only [h1, bind, Except.bind, Except.error.injEq] at h
+    subst h
+    exact parseMpint_err h1
+  | ok r1 =>
+    obtain ⟨x, n1⟩ := r1
+    simp only [h1, bind, Except.bind] at h
+    cases h2 : parseMpint (groupBytes g) (kb.drop n1) with
+    | error e2 =>
+      simp only [h2, Except.error.injEq] at h
+      subst h
+      exact parseMpint_err h2
+    | ok r2 =>
+      obtain ⟨y, n2⟩ := r2
+      simp only [h2] at h
+      cases h3 : ecWidth x.toNat y.toNat with
+      | error e3 =>
+        simp only [h3, Except.error.injEq] at h
+        subst h
+        exact ecWidth_err h3
+      | ok w => simp [h3, pure, Except.pure] at h
 
 theorem parseKeyEddsa_spec {c : Nat} {d : Bytes} (h : d.length = curveBytes c) (s : Bytes) :
     parseKeyEddsa c (d ++ s) = .ok (.eddsa c d, curveBytes c) := by
@@ -1021,17 +1396,193 @@ theorem parseKeyEddsa_spec {c : Nat} {d : Bytes} (h : d.length = curveBytes c) (
   rfl
 
 theorem parseKeyEddsa_consumed {c : Nat} {kb : Bytes} {k : Key} {n : Nat} (h : parseKeyEddsa c kb = .ok (k, n)) :
-    n = curveBytes c ∧ k = .eddsa c (kb.take (curveBytes c)) := by
+    n = curveBytes c ∧ k = .eddsa c (kb.take (curveBytes c)) ∧ curveBytes c ≤ kb.length := by
   unfold parseKeyEddsa at h
   cases h1 : parseRaw (curveBytes c : Nat) kb with
   | error e => simp [h1, bind, Except.bind] at h
   | ok r =>
     obtain ⟨d, m⟩ := r
-    obtain ⟨_, hm, _, hd⟩ := parseRaw_ok_inv h1
+    obtain ⟨_, hm, hle, hd⟩ := parseRaw_ok_inv h1
     simp [h1, bind, Except.bind, pure, Except.pure] at h
     simp at hm
-    refine ⟨by omega, ?_⟩
+    refine ⟨by omega, ?_, by omega⟩
     rw [← h.1, hd, hm]
+
+theorem parseKeyEddsa_err {c : Nat} {kb : Bytes} {e : PErr} (h : parseKeyEddsa c kb = .error e) : Benign e := by
+  unfold parseKeyEddsa at h
+  cases h1 : parseRaw (curveBytes c : Nat) kb with
+  | error e1 =>
+    simp only [h1, bind, Except.bind, Except.error.injEq] at h
+    subst h
+    exact parseRaw_err h1
+  | ok r => simp [h1, bind, Except.bind, pure, Except.pure] at h
+
+/-! ### DSA keys (RFC 2536) -/
+
+/-- `T` as `_compose_public_key_dss` derives it from the size of the prime -/
+def dsaT (p : Nat) : Nat := (byteLen p - 64) / 8
+
+/-- a DSA key the library reproduces: the prime has `64 + 8 * T` octets (no fewer) for a `T` that fits
+one octet, generator and public value fit that width, the order 20 octets -/
+def DsaOk (p g q y : Nat) : Prop :=
+  byteLen p = 64 + dsaT p * 8 ∧ dsaT p < 256 ∧ g < 256 ^ byteLen p ∧ y < 256 ^ byteLen p ∧ q < 256 ^ 20
+
+theorem composeKeyDsa_eq_spec {p g q y : Nat} (h : DsaOk p g q y) :
+    composeKeyDsa p g q y = .ok (Spec.Dns.encodeDsa (dsaT p) q p g y) := by
+  obtain ⟨hw, ht, hg, hy, hq⟩ := h
+  have hti : ((byteLen p : Nat) : Int) - 64 = ((dsaT p * 8 : Nat) : Int) := by omega
+  have htd : (((byteLen p : Nat) : Int) - 64) / 8 = ((dsaT p : Nat) : Int) := by
+    rw [hti]
+    omega
+  unfold composeKeyDsa
+  simp only [htd, composeNum_spec (k := 1) rfl (show dsaT p < 256 ^ 1 by omega), composeMpint_nat hq,
+    composeMpint_nat (lt_pow_byteLen p), composeMpint_nat hg, composeMpint_nat hy, bind, Except.bind, pure,
+    Except.pure, Spec.Dns.encodeDsa, ← hw]
+
+theorem byteLen_eq_of_bounds {p w : Nat} (h1 : p < 256 ^ w) (h2 : ¬ (p < 256 ^ (w - 1))) (hw : 1 ≤ w) : byteLen p = w := by
+  have ha : byteLen p ≤ w := (byteLen_le_iff p w).mpr h1
+  have hb : ¬ (byteLen p ≤ w - 1) := fun hc => h2 ((byteLen_le_iff p (w - 1)).mp hc)
+  omega
+
+theorem not_lt_pow_pred_byteLen {p : Nat} (hp : 1 ≤ byteLen p) : ¬ (p < 256 ^ (byteLen p - 1)) := by
+  intro h
+  have := (byteLen_le_iff p (byteLen p - 1)).mpr h
+  omega
+
+theorem drop_of_length {A rest : Bytes} {n : Nat} (h : A.length = n) : (A ++ rest).drop n = rest := by
+  rw [← h, List.drop_left]
+
+theorem parseKeyDsa_spec {p g q y : Nat} (h : DsaOk p g q y) :
+    parseKeyDsa (Spec.Dns.encodeDsa (dsaT p) q p g y)
+      = .ok (.dsa p g q y, (Spec.Dns.encodeDsa (dsaT p) q p g y).length) := by
+  obtain ⟨hw, ht, hg, hy, hq⟩ := h
+  have hp := lt_pow_byteLen p
+  have hlo := not_lt_pow_pred_byteLen (p := p) (by omega)
+  rw [hw] at hp hg hy hlo
+  generalize dsaT p = t at *
+  simp only [Spec.Dns.encodeDsa, List.append_assoc]
+  generalize hA : Spec.toBytesBE 1 t = A
+  generalize hB : Spec.toBytesBE 20 q = B
+  generalize hC : Spec.toBytesBE (64 + t * 8) p = C
+  generalize hD : Spec.toBytesBE (64 + t * 8) g = D
+  generalize hE : Spec.toBytesBE (64 + t * 8) y = E
+  have lA : A.length = 1 := by rw [← hA, toBytesBE_length]
+  have lB : B.length = 20 := by rw [← hB, toBytesBE_length]
+  have lC : C.length = 64 + t * 8 := by rw [← hC, toBytesBE_length]
+  have lD : D.length = 64 + t * 8 := by rw [← hD, toBytesBE_length]
+  have lE : E.length = 64 + t * 8 := by rw [← hE, toBytesBE_length]
+  have hd1 : (A ++ (B ++ (C ++ (D ++ E)))).drop 1 = B ++ (C ++ (D ++ E)) := drop_of_length lA
+  have hd2 : (A ++ (B ++ (C ++ (D ++ E)))).drop (1 + 20) = C ++ (D ++ E) := by
+    rw [← List.drop_drop, hd1, drop_of_length lB]
+  have hd3 : (A ++ (B ++ (C ++ (D ++ E)))).drop (1 + 20 + (64 + t * 8)) = D ++ E := by
+    rw [← List.drop_drop, hd2, drop_of_length lC]
+  have hd4 : (A ++ (B ++ (C ++ (D ++ E)))).drop (1 + 20 + (64 + t * 8) + (64 + t * 8)) = E := by
+    rw [← List.drop_drop, hd3, drop_of_length lD]
+  have p1 : parseNum .network 1 (A ++ (B ++ (C ++ (D ++ E)))) = .ok (t, 1) := by
+    rw [← hA]; exact parseNum_spec rfl (show t < 256 ^ 1 by omega) _
+  have p2 : parseMpint 20 (B ++ (C ++ (D ++ E))) = .ok ((q : Int), 20) := by rw [← hB]; exact parseMpint_spec hq _
+  have p3 : parseMpint (64 + t * 8) (C ++ (D ++ E)) = .ok ((p : Int), 64 + t * 8) := by
+    rw [← hC]; exact parseMpint_spec hp _
+  have p4 : parseMpint (64 + t * 8) (D ++ E) = .ok ((g : Int), 64 + t * 8) := by rw [← hD]; exact parseMpint_spec hg _
+  have p5 : parseMpint (64 + t * 8) E = .ok ((y : Int), 64 + t * 8) := by
+    have := parseMpint_spec hy []
+    rwa [List.append_nil, hE] at this
+  unfold parseKeyDsa
+  simp only [p1, bind, Except.bind, hd1, p2, hd2, p3, Int.toNat_natCast, hlo, if_false, hd3, p4, hd4, p5, pure,
+    Except.pure, List.length_append, lA, lB, lC, lD, lE]
+  congr 2
+  omega
+
+/-- what the DSA key parser accepts: a key the library reproduces (the prime fills the octets
+announced by `T`), in exactly `21 + 3 * (64 + 8 * T)` octets -/
+theorem parseKeyDsa_ok_inv {kb : Bytes} {k : Key} {n : Nat} (h : parseKeyDsa kb = .ok (k, n)) :
+    ∃ p g q y, k = .dsa p g q y ∧ DsaOk p g q y ∧ n = 1 + 20 + 3 * byteLen p := by
+  unfold parseKeyDsa at h
+  cases h1 : parseNum .network 1 kb with
+  | error e => simp [h1, bind, Except.bind] at h
+  | ok r1 =>
+    obtain ⟨t, n1⟩ := r1
+    obtain ⟨hn1, _, ht, _⟩ := parseNum_ok_inv h1
+    simp only [h1, bind, Except.bind] at h
+    cases h2 : parseMpint 20 (kb.drop n1) with
+    | error e => simp [h2] at h
+    | ok r2 =>
+      obtain ⟨q, n2⟩ := r2
+      simp only [h2] at h
+      cases h3 : parseMpint (64 + t * 8) (kb.drop (n1 + n2)) with
+      | error e => simp [h3] at h
+      | ok r3 =>
+        obtain ⟨p, n3⟩ := r3
+        simp only [h3] at h
+        split at h
+        · simp at h
+        · next hlo =>
+          cases h4 : parseMpint (64 + t * 8) (kb.drop (n1 + n2 + n3)) with
+          | error e => simp [h4, bind, Except.bind] at h
+          | ok r4 =>
+            obtain ⟨g, n4⟩ := r4
+            simp only [h4, bind, Except.bind] at h
+            cases h5 : parseMpint (64 + t * 8) (kb.drop (n1 + n2 + n3 + n4)) with
+            | error e => simp [h5] at h
+            | ok r5 =>
+              obtain ⟨y, n5⟩ := r5
+              simp only [h5, pure, Except.pure, Except.ok.injEq, Prod.mk.injEq] at h
+              obtain ⟨hk, hn⟩ := h
+              have hbl : byteLen p.toNat = 64 + t * 8 := byteLen_eq_of_bounds (parseMpint_ok_lt h3) hlo (by omega)
+              have hT : dsaT p.toNat = t := by unfold dsaT; rw [hbl]; omega
+              have e2 := (parseMpint_ok_inv h2).1
+              have e3 := (parseMpint_ok_inv h3).1
+              have e4 := (parseMpint_ok_inv h4).1
+              have e5 := (parseMpint_ok_inv h5).1
+              refine ⟨p.toNat, g.toNat, q.toNat, y.toNat, hk.symm, ⟨?_, ?_, ?_, ?_, parseMpint_ok_lt h2⟩, ?_⟩
+              · rw [hT]; exact hbl
+              · rw [hT]; simpa using ht
+              · rw [hbl]; exact parseMpint_ok_lt h4
+              · rw [hbl]; exact parseMpint_ok_lt h5
+              · rw [hbl]; omega
+
+theorem parseKeyDsa_err {kb : Bytes} {e : PErr} (h : parseKeyDsa kb = .error e) : Benign e := by
+  unfold parseKeyDsa at h
+  cases h1 : parseNum .network 1 kb with
+  | error e1 =>
+    simp only [h1, bind, Except.bind, Except.error.injEq] at h
+    subst h
+    exact parseNum_err_benign rfl h1
+  | ok r1 =>
+    obtain ⟨t, n1⟩ := r1
+    simp only [h1, bind, Except.bind] at h
+    cases h2 : parseMpint 20 (kb.drop n1) with
+    | error e2 =>
+      simp only [h2, Except.error.injEq] at h
+      subst h
+      exact parseMpint_err h2
+    | ok r2 =>
+      obtain ⟨q, n2⟩ := r2
+      simp only [h2] at h
+      cases h3 : parseMpint (64 + t * 8) (kb.drop (n1 + n2)) with
+      | error e3 =>
+        simp only [h3, Except.error.injEq] at h
+        subst h
+        exact parseMpint_err h3
+      | ok r3 =>
+        obtain ⟨p, n3⟩ := r3
+        simp only [h3] at h
+        split at h
+        · cases h; exact benign_invalidValue
+        · cases h4 : parseMpint (64 + t * 8) (kb.drop (n1 + n2 + n3)) with
+          | error e4 =>
+            simp only [h4, bind, Except.bind, Except.error.injEq] at h
+            subst h
+            exact parseMpint_err h4
+          | ok r4 =>
+            obtain ⟨g, n4⟩ := r4
+            simp only [h4, bind, Except.bind] at h
+            cases h5 : parseMpint (64 + t * 8) (kb.drop (n1 + n2 + n3 + n4)) with
+            | error e5 =>
+              simp only [h5, Except.error.injEq] at h
+              subst h
+              exact parseMpint_err h5
+            | ok r5 => simp [h5, pure, Except.pure] at h
 
 /-! ### DNSKEY -/
 
@@ -1063,19 +1614,19 @@ theorem dnskey_flags (sel : List Nat) (hsub : sel.Sublist flagExps) (s : Bytes) 
       funext e; exact flagWord_shiftLeft_testBit 0 sel (fun _ _ => Nat.zero_le _) e
     rw [this, filter_mem_of_sublist hsub hn]
 
-/-- the RFC-format public key octets of a model key (DSA, RFC 2536, is not covered by the theorems) -/
+/-- the RFC-format public key octets of a model key -/
 def keySpecBytes : Key → Bytes
   | .rsa e m => Spec.Dns.encodeRsa e m
   | .ec g x y => Spec.Dns.encodeEcdsa (groupBytes g) x y
   | .eddsa _ d => d
-  | .dsa _ _ _ _ => []
+  | .dsa p g q y => Spec.Dns.encodeDsa (dsaT p) q p g y
 
 /-- the key type the algorithm calls for, with key material the library reproduces -/
 def KeyOk (code : Nat) : Key → Prop
   | .rsa e m => keyKindOfCode code = some .rsa ∧ RsaOk e m
   | .ec g x y => keyKindOfCode code = some (.ec g) ∧ EcOk (groupBytes g) x y
   | .eddsa c d => keyKindOfCode code = some (.eddsa c) ∧ d.length = curveBytes c
-  | .dsa _ _ _ _ => False
+  | .dsa p g q y => keyKindOfCode code = some .dsa ∧ DsaOk p g q y
 
 structure DnskeyOk (k : Dnskey) : Prop where
   flags : ∃ sel : List Nat, sel.Sublist flagExps ∧ k.flags = sel.map (2 ^ ·)
@@ -1091,14 +1642,14 @@ theorem composeKey_eq_spec {code : Nat} {key : Key} (h : KeyOk code key) :
   | rsa e m => exact composeKeyRsa_eq_spec h.2
   | ec g x y => exact composeKeyEc_eq_spec h.2.1 h.2.2.1
   | eddsa c d => rfl
-  | dsa p g q y => exact absurd h id
+  | dsa p g q y => exact composeKeyDsa_eq_spec h.2
 
 theorem parseKeyN_spec {code : Nat} {key : Key} (h : KeyOk code key) :
     parseKeyN code (keySpecBytes key) = .ok (key, (keySpecBytes key).length) := by
   cases key with
   | rsa e m =>
     simp only [parseKeyN, h.1, keySpecBytes]
-    exact parseKeyRsa_spec h.2.2.1 h.2.2.2.2.2
+    exact parseKeyRsa_spec h.2
   | ec g x y =>
     simp only [parseKeyN, h.1, keySpecBytes]
     have := parseKeyEc_spec h.2 []
@@ -1111,7 +1662,134 @@ theorem parseKeyN_spec {code : Nat} {key : Key} (h : KeyOk code key) :
     have := parseKeyEddsa_spec h.2 []
     rw [List.append_nil] at this
     rw [this, h.2]
-  | dsa p g q y => exact absurd h id
+  | dsa p g q y =>
+    simp only [parseKeyN, h.1, keySpecBytes]
+    exact parseKeyDsa_spec h.2
+
+theorem parseKey_spec {code : Nat} {key : Key} (h : KeyOk code key) :
+    parseKey code (keySpecBytes key) = .ok key := by
+  unfold parseKey
+  rw [parseKeyN_spec h]
+  simp [bind, Except.bind, pure, Except.pure]
+
+/-- what `parse_key` accepts: a key of the type the algorithm calls for that the library reproduces,
+read from ALL of the public key field -/
+theorem parseKey_ok_inv {code : Nat} {kb : Bytes} {key : Key} (h : parseKey code kb = .ok key) :
+    KeyOk code key ∧ parseKeyN code kb = .ok (key, kb.length) := by
+  unfold parseKey at h
+  cases h1 : parseKeyN code kb with
+  | error e => simp [h1, bind, Except.bind] at h
+  | ok r =>
+    obtain ⟨k', n⟩ := r
+    simp only [h1, bind, Except.bind] at h
+    split at h
+    · simp at h
+    · next hn =>
+      simp only [pure, Except.pure, Except.ok.injEq] at h
+      subst h
+      unfold parseKeyN at h1
+      cases hk : keyKindOfCode code with
+      | none => simp [hk] at h1
+      | some kind =>
+        cases kind with
+        | rsa =>
+          simp only [hk] at h1
+          obtain ⟨e, m, rfl, hok, hl⟩ := parseKeyRsa_ok_inv h1
+          exact ⟨⟨hk, hok⟩, by rw [hl]⟩
+        | dsa =>
+          simp only [hk] at h1
+          obtain ⟨p, g, q, y, rfl, hok, hl⟩ := parseKeyDsa_ok_inv h1
+          have hle : n ≤ kb.length := by
+            unfold parseKeyDsa at h1
+            -- the number of octets read never exceeds the input: every field parser checks its length
+            cases a1 : parseNum .network 1 kb with
+            | error e => simp [a1, bind, Except.bind] at h1
+            | ok r1 =>
+              obtain ⟨t, n1⟩ := r1
+              obtain ⟨b1, c1, _⟩ := parseNum_ok_inv a1
+              simp only [a1, bind, Except.bind] at h1
+              cases a2 : parseMpint 20 (kb.drop n1) with
+              | error e => simp [a2] at h1
+              | ok r2 =>
+                obtain ⟨q', n2⟩ := r2
+                obtain ⟨b2, c2, _⟩ := parseMpint_ok_inv a2
+                simp only [a2] at h1
+                cases a3 : parseMpint (64 + t * 8) (kb.drop (n1 + n2)) with
+                | error e => simp [a3] at h1
+                | ok r3 =>
+                  obtain ⟨p', n3⟩ := r3
+                  obtain ⟨b3, c3, _⟩ := parseMpint_ok_inv a3
+                  simp only [a3] at h1
+                  split at h1
+                  · simp at h1
+                  · cases a4 : parseMpint (64 + t * 8) (kb.drop (n1 + n2 + n3)) with
+                    | error e => simp [a4, bind, Except.bind] at h1
+                    | ok r4 =>
+                      obtain ⟨g', n4⟩ := r4
+                      obtain ⟨b4, c4, _⟩ := parseMpint_ok_inv a4
+                      simp only [a4, bind, Except.bind] at h1
+                      cases a5 : parseMpint (64 + t * 8) (kb.drop (n1 + n2 + n3 + n4)) with
+                      | error e => simp [a5] at h1
+                      | ok r5 =>
+                        obtain ⟨y', n5⟩ := r5
+                        obtain ⟨b5, c5, _⟩ := parseMpint_ok_inv a5
+                        simp only [a5, pure, Except.pure, Except.ok.injEq, Prod.mk.injEq] at h1
+                        simp only [List.length_drop] at c2 c3 c4 c5
+                        omega
+          exact ⟨⟨hk, hok⟩, by congr 2; omega⟩
+        | ec g =>
+          simp only [hk] at h1
+          obtain ⟨x, y, rfl, hok, hl⟩ := parseKeyEc_ok_inv h1
+          have hle : n ≤ kb.length := by
+            unfold parseKeyEc at h1
+            cases a1 : parseMpint (groupBytes g) kb with
+            | error e => simp [a1, bind, Except.bind] at h1
+            | ok r1 =>
+              obtain ⟨x', n1⟩ := r1
+              obtain ⟨b1, c1, _⟩ := parseMpint_ok_inv a1
+              simp only [a1, bind, Except.bind] at h1
+              cases a2 : parseMpint (groupBytes g) (kb.drop n1) with
+              | error e => simp [a2] at h1
+              | ok r2 =>
+                obtain ⟨y', n2⟩ := r2
+                obtain ⟨b2, c2, _⟩ := parseMpint_ok_inv a2
+                simp only [List.length_drop] at c2
+                omega
+          exact ⟨⟨hk, hok⟩, by congr 2; omega⟩
+        | eddsa c =>
+          simp only [hk] at h1
+          obtain ⟨hc, rfl, hle⟩ := parseKeyEddsa_consumed h1
+          refine ⟨⟨hk, ?_⟩, by congr 2; omega⟩
+          rw [List.length_take]
+          omega
+
+theorem parseKeyN_err {code : Nat} {kb : Bytes} {e : PErr} (h : parseKeyN code kb = .error e) : Benign e := by
+  unfold parseKeyN at h
+  cases hk : keyKindOfCode code with
+  | none =>
+    simp only [hk, Except.error.injEq] at h
+    subst h
+    exact benign_invalidValue
+  | some kind =>
+    cases kind with
+    | rsa => simp only [hk] at h; exact parseKeyRsa_err h
+    | dsa => simp only [hk] at h; exact parseKeyDsa_err h
+    | ec g => simp only [hk] at h; exact parseKeyEc_err h
+    | eddsa c => simp only [hk] at h; exact parseKeyEddsa_err h
+
+theorem parseKey_err {code : Nat} {kb : Bytes} {e : PErr} (h : parseKey code kb = .error e) : Benign e := by
+  unfold parseKey at h
+  cases h1 : parseKeyN code kb with
+  | error e1 =>
+    simp only [h1, bind, Except.bind, Except.error.injEq] at h
+    subst h
+    exact parseKeyN_err h1
+  | ok r =>
+    obtain ⟨k', n⟩ := r
+    simp only [h1, bind, Except.bind] at h
+    split at h
+    · cases h; exact benign_tooMuch _
+    · simp [pure, Except.pure] at h
 
 theorem composeDnskey_eq_spec {k : Dnskey} (h : DnskeyOk k) :
     composeDnskey k = .ok (Spec.Dns.encodeDnskey k.toSpec) := by
@@ -1170,10 +1848,7 @@ theorem parseDnskey_spec {k : Dnskey} (h : DnskeyOk k) :
     have := List.drop_left (l₁ := Spec.toBytesBE 1 k.algCode) (l₂ := keySpecBytes k.key)
     rwa [toBytesBE_length] at this
   have hcodeD : Gen.DnsSecAlgorithm.codes.getD k.algorithm 0 = k.algCode := rfl
-  have hkey : parseKey k.algCode (keySpecBytes k.key) = .ok k.key := by
-    unfold parseKey
-    rw [parseKeyN_spec h.key]
-    rfl
+  have hkey : parseKey k.algCode (keySpecBytes k.key) = .ok k.key := parseKey_spec h.key
   have hk : (⟨sel.map (2 ^ ·), k.algorithm, k.key, 3⟩ : Dnskey) = k := by
     have hp := h.protocol
     cases k
@@ -1182,6 +1857,267 @@ theorem parseDnskey_spec {k : Dnskey} (h : DnskeyOk k) :
   simp only [hd3, rawRest, hcodeD, hkey, pure, Except.pure, List.length_append, toBytesBE_length, hk]
   congr 2
   omega
+
+/-- What `DnsRecordDnskey._parse` accepts: a record the library reproduces (`DnskeyOk`: known flags
+only, protocol 3, a key of the algorithm's type that composes), read from ALL of the RDATA. -/
+theorem parseDnskey_ok_inv {bs : Bytes} {k : Dnskey} {n : Nat} (h : parseDnskey bs = .ok (k, n)) :
+    DnskeyOk k ∧ n = bs.length := by
+  unfold parseDnskey at h
+  split at h
+  · simp at h
+  · next hlen =>
+    simp only [dnskeyHeaderSize] at hlen
+    cases hp : parseNum .network 2 bs with
+    | error e => rw [parseFlags_error _ _ _ _ _ _ hp] at h; simp [bind, Except.bind] at h
+    | ok r0 =>
+      obtain ⟨v, n0⟩ := r0
+      have hn0 := (parseNum_ok_inv hp).1
+      rw [flagCodes_eq, parseFlags_single .network 2 0 flagExps bs v n0 hp] at h
+      simp only [bind, Except.bind] at h
+      cases h2 : parseIntEnum protocolValues 1 (bs.drop n0) with
+      | error e => simp [h2] at h
+      | ok r2 =>
+        obtain ⟨proto, n2⟩ := r2
+        obtain ⟨hp2, hmem⟩ := parseIntEnum_ok_inv h2
+        have hn2 := (parseNum_ok_inv hp2).1
+        simp only [h2] at h
+        cases h3 : parseCoded Gen.DnsSecAlgorithm.codes 1 (bs.drop (n0 + n2)) with
+        | error e => simp [h3] at h
+        | ok r3 =>
+          obtain ⟨alg, n3⟩ := r3
+          obtain ⟨c, hp3, hfind⟩ := parseCoded_ok_inv h3
+          have hn3 := (parseNum_ok_inv hp3).1
+          have hget := findCode_sound hfind
+          have halg : alg < Gen.DnsSecAlgorithm.codes.length := by
+            by_cases hl : alg < Gen.DnsSecAlgorithm.codes.length
+            · exact hl
+            · rw [List.getElem?_eq_none (by omega)] at hget; cases hget
+          simp only [h3, rawRest] at h
+          rw [List.getD_eq_getElem?_getD] at h
+          cases h4 : parseKey (Gen.DnsSecAlgorithm.codes[alg]?.getD 0) (bs.drop (n0 + n2 + n3)) with
+          | error e => simp [h4] at h
+          | ok key =>
+            simp only [h4, pure, Except.pure, Except.ok.injEq, Prod.mk.injEq] at h
+            obtain ⟨hk, hn⟩ := h
+            subst hk
+            have hko := (parseKey_ok_inv h4).1
+            refine ⟨⟨⟨flagExps.filter fun e => (v <<< 0).testBit e, List.filter_sublist, rfl⟩, ?_, halg, ?_⟩, ?_⟩
+            · simpa [protocolValues] using hmem
+            · show KeyOk (Gen.DnsSecAlgorithm.codes.getD alg 0) key
+              rw [List.getD_eq_getElem?_getD]
+              exact hko
+            · rw [← hn, List.length_drop]
+              omega
+
+/-- `DnsRecordDnskey._parse` raises nothing but the documented parse errors (up to the model's own
+boundary marker for EC coordinates in the float zone of asn1crypto's size computation) -/
+theorem parseDnskey_crash {bs : Bytes} {k : String} (h : parseDnskey bs = .error (.crash k)) : k = "UNMODELLED" := by
+  unfold parseDnskey at h
+  split at h
+  · simp at h
+  · cases hp : parseNum .network 2 bs with
+    | error e =>
+      rw [parseFlags_error _ _ _ _ _ _ hp] at h
+      simp only [bind, Except.bind, Except.error.injEq] at h
+      exact parseNum_err_benign rfl hp k h
+    | ok r0 =>
+      obtain ⟨v, n0⟩ := r0
+      rw [flagCodes_eq, parseFlags_single .network 2 0 flagExps bs v n0 hp] at h
+      simp only [bind, Except.bind] at h
+      cases h2 : parseIntEnum protocolValues 1 (bs.drop n0) with
+      | error e =>
+        simp only [h2, Except.error.injEq] at h
+        subst h
+        exact absurd h2 (intEnum_noCrash protocolValues (k := 1) rfl _ k)
+      | ok r2 =>
+        obtain ⟨proto, n2⟩ := r2
+        simp only [h2] at h
+        cases h3 : parseCoded Gen.DnsSecAlgorithm.codes 1 (bs.drop (n0 + n2)) with
+        | error e =>
+          simp only [h3, Except.error.injEq] at h
+          subst h
+          exact absurd h3 (codedStrict_noCrash Gen.DnsSecAlgorithm.codes (k := 1) rfl _ k)
+        | ok r3 =>
+          obtain ⟨alg, n3⟩ := r3
+          simp only [h3, rawRest] at h
+          rw [List.getD_eq_getElem?_getD] at h
+          cases h4 : parseKey (Gen.DnsSecAlgorithm.codes[alg]?.getD 0) (bs.drop (n0 + n2 + n3)) with
+          | error e =>
+            simp only [h4, Except.error.injEq] at h
+            exact parseKey_err h4 k h
+          | ok key => simp [h4, pure, Except.pure] at h
+
+/-- Every accepted DNSKEY can be composed again, and its composition parses back to the same record
+with every octet consumed (C05 for `DnsRecordDnskey`). -/
+theorem parseDnskey_recomposable {bs : Bytes} {k : Dnskey} {n : Nat} (h : parseDnskey bs = .ok (k, n)) :
+    ∃ b, composeDnskey k = .ok b ∧ parseDnskey b = .ok (k, b.length) :=
+  ⟨_, composeDnskey_eq_spec (parseDnskey_ok_inv h).1, parseDnskey_spec (parseDnskey_ok_inv h).1⟩
+
+/-! ### canonical re-encoding: what is accepted composes back to the octets that were read -/
+
+/-- whatever the parser accepts is composed back to exactly the octets it consumed -/
+def Canonical (c : Codec α) : Prop :=
+  ∀ bs v n, c.parse bs = .ok (v, n) → n ≤ bs.length ∧ c.compose v = .ok (bs.take n)
+
+/-- … for a class that reads to the end of its input (RDATA is delimited by RDLENGTH): all of the
+input is consumed and composed back -/
+def CanonicalExact (c : Codec α) : Prop :=
+  ∀ bs v n, c.parse bs = .ok (v, n) → n = bs.length ∧ c.compose v = .ok bs
+
+theorem num_canonical (k : Nat) : Canonical (num .network k) := by
+  intro bs v n h
+  obtain ⟨hn, hk, hv, henc, hvs⟩ := parseNum_ok_inv (show parseNum .network k bs = .ok (v, n) from h)
+  rw [hn]
+  exact ⟨hk, by show composeNum .network k (v : Int) = _; rw [composeNum_ok hvs hv, henc]⟩
+
+theorem codedStrict_canonical (codes : List Nat) (k : Nat) : Canonical (codedStrict codes k) := by
+  intro bs i n h
+  obtain ⟨c, hp, hf⟩ := parseCoded_ok_inv (show parseCoded codes k bs = .ok (i, n) from h)
+  obtain ⟨hn, hk, hv, henc, hvs⟩ := parseNum_ok_inv hp
+  rw [hn]
+  refine ⟨hk, ?_⟩
+  show composeCoded codes k i = _
+  simp only [composeCoded, findCode_sound hf]
+  rw [composeNum_ok hvs hv, henc]
+
+theorem rawRest_canonicalExact : CanonicalExact rawRest := by
+  intro bs v n h
+  simp only [rawRest, Except.ok.injEq, Prod.mk.injEq] at h
+  obtain ⟨hv, hn⟩ := h
+  subst hv
+  exact ⟨hn.symm, rfl⟩
+
+theorem seq_canonical {a : Codec α} {b : Codec β} (ha : Canonical a) (hb : Canonical b) : Canonical (seq a b) := by
+  intro bs ⟨x, y⟩ t h
+  obtain ⟨n, m, h1, h2, ht⟩ := seq_parse_ok_inv h
+  obtain ⟨hn, hca⟩ := ha _ _ _ h1
+  obtain ⟨hm, hcb⟩ := hb _ _ _ h2
+  simp only [List.length_drop] at hm
+  subst ht
+  refine ⟨by omega, ?_⟩
+  simp only [seq, hca, hcb, bind, Except.bind, pure, Except.pure]
+  rw [List.take_add]
+
+theorem seq_canonicalExact {a : Codec α} {b : Codec β} (ha : Canonical a) (hb : CanonicalExact b) :
+    CanonicalExact (seq a b) := by
+  intro bs ⟨x, y⟩ t h
+  obtain ⟨n, m, h1, h2, ht⟩ := seq_parse_ok_inv h
+  obtain ⟨hn, hca⟩ := ha _ _ _ h1
+  obtain ⟨hm, hcb⟩ := hb _ _ _ h2
+  simp only [List.length_drop] at hm
+  subst ht
+  refine ⟨by omega, ?_⟩
+  simp only [seq, hca, hcb, bind, Except.bind, pure, Except.pure, List.take_append_drop]
+
+theorem mapE_canonical {c : Codec α} {f : α → Except PErr β} {g : β → α} (hc : Canonical c)
+    (hfg : ∀ x y, f x = .ok y → g y = x) : Canonical (mapE c f g) := by
+  intro bs y n h
+  obtain ⟨x, hp, hf⟩ := mapE_parse_ok_inv h
+  obtain ⟨hn, hcc⟩ := hc _ _ _ hp
+  exact ⟨hn, by show c.compose (g y) = _; rw [hfg x y hf, hcc]⟩
+
+theorem mapE_canonicalExact {c : Codec α} {f : α → Except PErr β} {g : β → α} (hc : CanonicalExact c)
+    (hfg : ∀ x y, f x = .ok y → g y = x) : CanonicalExact (mapE c f g) := by
+  intro bs y n h
+  obtain ⟨x, hp, hf⟩ := mapE_parse_ok_inv h
+  obtain ⟨hn, hcc⟩ := hc _ _ _ hp
+  exact ⟨hn, by show c.compose (g y) = _; rw [hfg x y hf, hcc]⟩
+
+theorem minSize_canonical {c : Codec α} {k : Nat} (hc : Canonical c) : Canonical (minSize k c) :=
+  fun bs v n h => hc bs v n (minSize_parse_ok_inv h).1
+
+theorem minSize_canonicalExact {c : Codec α} {k : Nat} (hc : CanonicalExact c) : CanonicalExact (minSize k c) :=
+  fun bs v n h => hc bs v n (minSize_parse_ok_inv h).1
+
+/-- a name that is accepted composes back to the octets that were read -/
+theorem name_canonical : Canonical nameCodec := by
+  intro bs ls n h
+  obtain ⟨h1, _, h3, h4⟩ := parseName_ok_inv (show parseName bs = .ok (ls, n) from h)
+  exact ⟨h1, by show composeName ls = _; rw [composeName_ok h4, h3]⟩
+
+theorem typeCovered_canonical : Canonical typeCoveredCodec := by
+  intro bs t n h
+  simp only [typeCoveredCodec, parseTypeCovered, orElseInvalid] at h
+  cases h1 : parseCoded Gen.DnsRrType.codes 2 bs with
+  | ok r =>
+    obtain ⟨i, m⟩ := r
+    simp only [h1, Except.map, Except.ok.injEq, Prod.mk.injEq] at h
+    obtain ⟨ht, hn⟩ := h
+    subst ht; subst hn
+    exact codedStrict_canonical Gen.DnsRrType.codes 2 bs i m h1
+  | error e =>
+    cases e with
+    | invalidValue =>
+      simp only [h1, Except.map] at h
+      unfold parsePrivateType at h
+      cases h2 : parseNum .network 2 bs with
+      | error e2 => simp [h2, bind, Except.bind] at h
+      | ok r2 =>
+        obtain ⟨v, m⟩ := r2
+        simp only [h2, bind, Except.bind] at h
+        by_cases hlo : v < privateTypeMin
+        · simp [hlo] at h
+        · by_cases hhi : v > privateTypeMax
+          · simp [hlo, hhi] at h
+          · simp only [hlo, hhi, if_false, pure, Except.pure, Except.ok.injEq, Prod.mk.injEq] at h
+            obtain ⟨ht, hn⟩ := h
+            subst ht; subst hn
+            exact num_canonical 2 bs v m h2
+    | crash c => simp [h1, Except.map] at h
+    | notEnough m => simp [h1, Except.map] at h
+    | tooMuch m => simp [h1, Except.map] at h
+    | invalidType => simp [h1, Except.map] at h
+
+theorem instant_canonical : Canonical instantCodec := by rw [instantCodec_eq]; exact num_canonical 4
+
+/-- `DnsRecordMx`: what is accepted composes back to the octets read -/
+theorem mx_canonical : Canonical mxCodec := by
+  apply minSize_canonical
+  apply mapE_canonical (seq_canonical (num_canonical 2) name_canonical)
+  intro x y h
+  cases h
+  rfl
+
+/-- `DnsRecordDs`: all of the RDATA is read and composed back -/
+theorem ds_canonicalExact : CanonicalExact dsCodec := by
+  apply minSize_canonicalExact
+  apply mapE_canonicalExact
+    (seq_canonicalExact (num_canonical 2) (seq_canonicalExact (codedStrict_canonical _ 1)
+      (seq_canonicalExact (codedStrict_canonical _ 1) rawRest_canonicalExact)))
+  intro x y h
+  cases h
+  rfl
+
+/-- `DnsRecordRrsig`: all of the RDATA is read and composed back -/
+theorem rrsig_canonicalExact : CanonicalExact rrsigCodec := by
+  apply minSize_canonicalExact
+  apply mapE_canonicalExact
+    (seq_canonicalExact typeCovered_canonical (seq_canonicalExact (codedStrict_canonical _ 1)
+      (seq_canonicalExact (num_canonical 1) (seq_canonicalExact (num_canonical 4)
+        (seq_canonicalExact instant_canonical (seq_canonicalExact instant_canonical
+          (seq_canonicalExact (num_canonical 2) (seq_canonicalExact name_canonical rawRest_canonicalExact))))))))
+  intro x y h
+  simp only [rrsigOfTuple, Except.ok.injEq] at h
+  subst h
+  rfl
+
+/-- what the RRSIG parser accepts has a signer's name within the limits of RFC 1035 §2.3.4 -/
+theorem parseRrsig_name_ok {bs : Bytes} {r : Rrsig} {n : Nat} (h : parseRrsig bs = .ok (r, n)) :
+    NameOk r.signersName := by
+  obtain ⟨hp, _⟩ := minSize_parse_ok_inv (show (minSize rrsigHeaderSize _).parse bs = .ok (r, n) from h)
+  obtain ⟨x, hx, hf⟩ := mapE_parse_ok_inv hp
+  simp only [rrsigOfTuple, Except.ok.injEq] at hf
+  subst hf
+  obtain ⟨x1, x2, x3, x4, x5, x6, x7, x8, x9⟩ := x
+  obtain ⟨_, _, _, h2, _⟩ := seq_parse_ok_inv hx
+  obtain ⟨_, _, _, h3, _⟩ := seq_parse_ok_inv h2
+  obtain ⟨_, _, _, h4, _⟩ := seq_parse_ok_inv h3
+  obtain ⟨_, _, _, h5, _⟩ := seq_parse_ok_inv h4
+  obtain ⟨_, _, _, h6, _⟩ := seq_parse_ok_inv h5
+  obtain ⟨_, _, _, h7, _⟩ := seq_parse_ok_inv h6
+  obtain ⟨_, _, _, h8, _⟩ := seq_parse_ok_inv h7
+  obtain ⟨_, _, h9, _, _⟩ := seq_parse_ok_inv h8
+  exact (parseName_ok_inv (show parseName _ = .ok (x8, _) from h9)).2.2.2
 
 /-! ### key tag of a record -/
 
